@@ -111,6 +111,9 @@ def extra_crystals():
     # base-centred orthorhombic cell in a non-standard axis setting (centring vector (1/2,0,1/2): "B" centring, standard is A or C)
     L.append(_c("ortho-B-conv-4", [[3.1, 0, 0], [0, 3.9, 0], [0, 0, 4.7]], ["Ga", "Ga", "As", "As"],
                 [[0, 0, 0], [.5, 0, .5], [0, .37, 0], [.5, .37, .5]], polar=True))
+    # primitive tetragonal cells whose fourfold axis is a (b ~ c) or b (c ~ a): every pair order of "equivalent lattice vectors" occurs
+    L.append(_c("tet-a-2", [[4.9, 0, 0], [0, 3.2, 0], [0, 0, 3.2]], ["Ga", "As"], [[0, 0, 0], [.5, .5, .5]]))
+    L.append(_c("tet-b-2", [[3.2, 0, 0], [0, 4.9, 0], [0, 0, 3.2]], ["Ga", "As"], [[0, 0, 0], [.5, .5, .5]]))
     return L
 
 
